@@ -802,6 +802,70 @@ Proof.
 Qed.
 
 (* ------------------------------------------------------------------------------------------------ *)
+(* (e) non-negativity in every dimension, on the sequential residual form: ratio_seq >= 1               *)
+(* ------------------------------------------------------------------------------------------------ *)
+Lemma resid_app B1 B2 v : resid (B1 ++ B2) v = resid B2 (resid B1 v).
+Proof. unfold resid. apply fold_left_app. Qed.
+
+Lemma resid_shrinks n : forall B v, Forall (fun b => length b = n) B -> length v = n ->
+  dot (resid B v) (resid B v) <= dot v v.
+Proof.
+  induction B as [|b B IH]; intros v HB Lv; [cbn; lra|].
+  inversion HB as [|? ? Lb HB']; subst. change (resid (b :: B) v) with (resid B (proj_out b v)).
+  eapply Qle_trans; [apply IH; [exact HB'|rewrite proj_out_length; congruence]|].
+  apply proj_out_shrinks. congruence.
+Qed.
+
+Lemma gs_acc_prefix : forall cols acc, exists ext, gs_acc acc cols = acc ++ ext.
+Proof.
+  induction cols as [|c cols IH]; intros acc; cbn [gs_acc]; [exists []; now rewrite app_nil_r|].
+  destruct (IH (acc ++ [resid acc c])) as [ext E]. exists ([resid acc c] ++ ext). now rewrite E, app_assoc.
+Qed.
+
+Lemma res_factors_shrink n : forall ys base xs, Forall (fun b => length b = n) base ->
+  Forall (fun b => length b = n) xs -> Forall (fun b => length b = n) ys ->
+  Forall (fun nd => 0 <= snd nd /\ snd nd <= fst nd) (res_factors base xs ys).
+Proof.
+  induction ys as [|y ys IH]; intros base xs Hb Hx Hy; cbn [res_factors]; [constructor|].
+  inversion Hy as [|? ? Ly Hy']; subst. constructor.
+  - cbn [fst snd]. split; [apply dot_nonneg|].
+    destruct (gs_acc_prefix xs base) as [ext E]. rewrite E, resid_app.
+    apply (resid_shrinks (length y)); [|apply resid_length; auto].
+    pose proof (gs_acc_length (length y) xs base Hb Hx) as H. rewrite E in H. apply Forall_app in H. tauto.
+  - apply IH; [|assumption|assumption]. apply Forall_app. split; [exact Hb|].
+    constructor; [|constructor]. apply resid_length; auto.
+Qed.
+
+Lemma qprod_quot_ge_1 (fs : list (Q * Q)) : Forall (fun nd => 0 < snd nd /\ snd nd <= fst nd) fs ->
+  0 < qprod (map snd fs) /\ qprod (map snd fs) <= qprod (map fst fs).
+Proof.
+  induction 1 as [|[nu de] fs [Hd Hn] _ [IH1 IH2]]; cbn [map fst snd] in *.
+  - cbn. split; lra.
+  - rewrite !qprod_cons. split.
+    + apply Qmult_lt_0_compat; assumption.
+    + apply Qle_trans with (de * qprod (map fst fs)).
+      * apply Qmult_le_l; assumption.
+      * apply Qmult_le_compat_r; [exact Hn|lra].
+Qed.
+
+Theorem ratio_seq_ge_1 D ix iy iz q : ratio_seq D ix iy iz = Some q -> 1 <= q.
+Proof.
+  unfold ratio_seq. set (fs := res_factors (zbasis D iz) (map (col D) ix) (map (col D) iy)).
+  destruct (existsb (fun nd => Qeq_bool (snd nd) 0) fs) eqn:E; [discriminate|]. intros H.
+  match type of H with Some ?t = _ => assert (Hq : q = t) by congruence end. subst q. clear H.
+  assert (Hc : forall l, Forall (fun b => length b = length D) (map (col D) l)).
+  { intros l. apply Forall_forall. intros c Hc. apply in_map_iff in Hc. destruct Hc as [k [<- _]]. apply col_length. }
+  pose proof (res_factors_shrink (length D) (map (col D) iy) (zbasis D iz) (map (col D) ix) (zbasis_length D iz) (Hc ix) (Hc iy)) as HS.
+  fold fs in HS.
+  assert (HP : Forall (fun nd => 0 < snd nd /\ snd nd <= fst nd) fs).
+  { rewrite Forall_forall in *. intros nd Hnd. destruct (HS nd Hnd) as [H0 H1]. split; [|exact H1].
+    destruct (Qle_lt_or_eq _ _ H0) as [?|E0]; [assumption|]. exfalso.
+    assert (existsb (fun nd => Qeq_bool (snd nd) 0) fs = true); [|congruence].
+    apply existsb_exists. exists nd. split; [exact Hnd|]. apply Qeq_bool_iff. symmetry. exact E0. }
+  destruct (qprod_quot_ge_1 fs HP) as [P1 P2]. rewrite Qred_correct. apply Qle_shift_div_l; [exact P1|]. lra.
+Qed.
+
+(* ------------------------------------------------------------------------------------------------ *)
 (* non-vacuity: a concrete non-degenerate sample on which every hypothesis above holds                *)
 (* ------------------------------------------------------------------------------------------------ *)
 Definition exD : list (list Q) :=
@@ -809,8 +873,11 @@ Definition exD : list (list Q) :=
 Example ex_forms_agree :
   ratio_det exD [0%nat] [1%nat] [2%nat; 3%nat] = Some (21571505 # 15613024) /\
   ratio_corr exD [0%nat] [1%nat] [2%nat; 3%nat] = Some (21571505 # 15613024) /\
-  ratio_res exD [0%nat] [1%nat] [2%nat; 3%nat] = Some (21571505 # 15613024).
-Proof. vm_compute. repeat split. Qed.
+  ratio_res exD [0%nat] [1%nat] [2%nat; 3%nat] = Some (21571505 # 15613024) /\
+  ratio_seq exD [0%nat] [1%nat] [2%nat; 3%nat] = Some (21571505 # 15613024) /\
+  ratio_seq exD [0%nat; 2%nat] [1%nat; 3%nat] [] = ratio_det exD [0%nat; 2%nat] [1%nat; 3%nat] [] /\
+  ratio_seq exD [0%nat; 2%nat] [1%nat; 3%nat] [] <> None.
+Proof. vm_compute. repeat split. discriminate. Qed.
 Example ex_chain_rule_hypotheses :
   ratio_det exD [0%nat] [2%nat; 3%nat] [] <> None /\ ratio_det exD [0%nat] [1%nat] [2%nat; 3%nat] <> None /\
   Forall (fun i => ~ sc exD i i == 0) ([0%nat] ++ [1%nat] ++ [2%nat; 3%nat]).
